@@ -277,10 +277,12 @@ class PWrap(Pattern):
 
     def __next__(self):
         value = next(self.pattern)
-        while value < self.min:
-            value += self.max - self.min
-        while value >= self.max:
-            value -= self.max - self.min
+        min = Pattern.value(self.min)
+        max = Pattern.value(self.max)
+        while value < min:
+            value += max - min
+        while value >= max:
+            value -= max - min
         return value
 
 class PIndexOf(Pattern):
